@@ -267,7 +267,9 @@ push_step!(push_t_b_n2, RAB, [false, true], entity = (B), n = 2, cap = 4, s = 3,
 // ------------------------------------------------------------------------------------------
 
 fn any_vec<C: Cell>(k: usize, fps: &mut [[u64; MAXC]; 3], col: usize) -> Vec<C> {
-    let mut v = Vec::with_capacity(k);
+    // spare capacity: a caller's Vec need not be exactly full (len != capacity matters when the
+    // archetype adopts the allocation)
+    let mut v = Vec::with_capacity(k + 1);
     let mut i = 0;
     while i < k {
         let c = C::any_cell();
